@@ -746,10 +746,10 @@ func checkC02(c *Ctx) {
 			{fam: "inputs", alpha: "full", maxFiles: 2, maxVals: 1, sel: "{}", nsel: "{2}"},
 			{fam: "sim", alpha: "full", maxRules: 6, maxFiles: 3, maxVals: 3, maxArr: 3, sel: "{}", nsel: "{0, 1, 2}", sim: 4000},
 			{fam: "cells", alpha: "cells", maxRules: 2, sel: all, nsel: "{0}"},
-			{fam: "cells", alpha: "cells", maxRules: 3, sel: "{3, 6}", nsel: "{0}"},
+			{fam: "cells", alpha: "cells", maxRules: 3, sel: "{3}", nsel: "{0}"},
 			{fam: "sim", alpha: "cells", maxRules: 6, maxFiles: 3, maxVals: 3, maxArr: 3, sel: "{}", nsel: "{0, 1, 2}", sim: 2000},
 		}
-		bounds["cells"] = "all lists <= 2 of writing rules (31 symbols: $ = v, $.p = v, $file = v after the print) x 6 fixed inputs (several values per file; selectors selecting the same subtree twice, a subtree and the whole value), <= 3 x inputs 3 and 6; 8 x 2000 random behaviours with writing rules and such selector lists"
+		bounds["cells"] = "all lists <= 2 of writing rules (31 symbols: $ = v, $.p = v, $file = v after the print) x 6 fixed inputs (several values per file; selectors selecting the same subtree twice, a subtree and the whole value), <= 3 x input 3; 8 x 2000 random behaviours with writing rules and such selector lists"
 		bounds["rules"] = "all rule lists <= 3 over the 30-symbol alphabet x 6 fixed inputs; <= 5 over the 8-symbol core alphabet x input 6, <= 4 x inputs 1..3"
 		bounds["inputs"] = "files <= 2, values per file <= 2 (nsel 0, 1) / <= 1 (nsel 2), 6 root shapes x 6 fixed rule lists"
 		bounds["sim"] = "8 x 4000 random behaviours: rules <= 6, files <= 3, values <= 3, array length <= 3, nsel <= 2"
